@@ -353,6 +353,32 @@ func Tramp(c *core.Ctx, rule string) {
 			}
 			continue
 		}
+		// an unexported method referred to only as a method value (firstFunc: d.placeholder, getNextFunc: d.resume) is a
+		// continuation like a literal: it runs when the trampoline calls it, not while the Eval is built
+		if fd.Recv != nil && !ast.IsExported(fd.Name.Name) {
+			refs, called := 0, 0
+			for _, f := range p.Syntax {
+				ast.Inspect(f, func(x ast.Node) bool {
+					switch s := x.(type) {
+					case *ast.CallExpr:
+						if se, ok := ast.Unparen(s.Fun).(*ast.SelectorExpr); ok {
+							if m, ok := info.Uses[se.Sel].(*types.Func); ok && m.Origin() == fn.Origin() {
+								called++
+							}
+						}
+					case *ast.SelectorExpr:
+						if m, ok := info.Uses[s.Sel].(*types.Func); ok && m.Origin() == fn.Origin() {
+							refs++
+						}
+					}
+					return true
+				})
+			}
+			if refs > 0 && called == 0 {
+				c.Add(rule, name+"/eager-call", fd.Pos(), core.Skipped, "used only as a method value: a continuation, run by the trampoline")
+				continue
+			}
+		}
 		if hit := callsFuncValue(fd.Body); hit != nil {
 			c.Add(rule, name+"/eager-call", hit.Pos(), core.Violated, name+" runs `"+exprString(hit)+"` while building the Eval: the computation is not deferred to the trampoline (evaluated eagerly / on the caller's stack)")
 		} else {
